@@ -36,6 +36,13 @@ Record ccase := mkCase {
   k_refbal : Z; k_balloc : Z; k_bfree : Z
 }.
 
+(* the check writes long lists of small non-negative numbers as one base-2^20 literal, written in hexadecimal (cheaper to parse) *)
+Definition unpack (n z : Z) : list Z :=
+  (fix go (k : nat) (z : Z) : list Z :=
+     match k with O => [] | S k' => Z.land z 1048575 :: go k' (Z.shiftr z 20) end) (Z.to_nat n) z.
+Definition mkObsP (ns ps : Z) (two : bool) (no po ret stdret stdok cap ss so pl : Z) : stepobs :=
+  mkObs (unpack ns ps) two (unpack no po) ret stdret stdok cap ss so (unpack 14 pl).
+
 (* has the operation a std::vector counterpart that returns a position / value? *)
 Definition has_std_ret (o : op) : bool :=
   match o with
@@ -121,7 +128,7 @@ Definition judge_case (c : ccase) : list Z :=
    if negb hdr then -2 else if negb (a_agree a) then a_first a else if negb fin_agree then -3 else -1].
 
 (* the model's own line for a case (debugging aid for the check: what the model expected at step i) *)
-Definition model_trace (ts : Z) (ops : list (bool * op)) : list (list Z * Z * Z * list Z) :=
+Definition model_debug (ts : Z) (ops : list (bool * op)) : list (list Z * Z * Z * list Z) :=
   let tr := trait_set ts in
   snd (fold_left (fun (st : world * list (list Z * Z * Z * list Z)) (x : bool * op) =>
          let '(w, acc) := st in
